@@ -913,6 +913,7 @@ static void run_cfg(int profile, int hash, size_t init_size, int dtor, int hashB
     }
     double t0 = v_now();
     esx_run(&model);
+        ESX_CYCLES(&model);
     v_out("INFO   %s nops=%d wall=%.1fs", g.name, g_nops, v_now() - t0);
 }
 
